@@ -50,6 +50,28 @@ pub fn style_tag_of(style: &Style) -> Result<u32, String> {
     Err(format!("unrecognised style {:?}", style.get_background_color().map(|c| c.get_argb().to_string())))
 }
 
+/// Style tag after a save + reload: the reader materialises the workbook defaults (font,
+/// borders, ...) into every style, so only the fill colour that carries the tag is read.
+pub fn style_tag_lenient(style: &Style) -> Result<u32, String> {
+    match style.get_background_color() {
+        None => Ok(0),
+        Some(c) => {
+            let argb = c.get_argb();
+            if argb.is_empty() {
+                return Ok(0);
+            }
+            if argb.len() == 8 && argb.starts_with("FF") {
+                if let Ok(t) = u32::from_str_radix(&argb[2..], 16) {
+                    if t > 0 {
+                        return Ok(t);
+                    }
+                }
+            }
+            Err(format!("unrecognised fill colour {:?}", argb))
+        }
+    }
+}
+
 pub fn hl_url(tag: u32) -> String {
     format!("https://h.example/{}", tag)
 }
@@ -426,16 +448,57 @@ pub fn aop(kinds: Vec<(u32, AKind)>) -> BoxedStrategy<AOp> {
         .boxed()
 }
 
+/// How an insert/remove is spelled at the call site.
+#[derive(Clone, Copy, Debug, Default, PartialEq, Eq, Serialize, Deserialize)]
+pub struct CallForm {
+    /// column letter case for the by-letter entry points: 0 "AB", 1 "ab", 2 "aB"
+    pub letter_case: u8,
+    /// sheet-level `*_from_other_sheet(other_name, ..)` variant (C10 only): shifts this
+    /// sheet physically exactly like the plain sheet-level call
+    pub from_other: bool,
+}
+
+/// What a `set_cell` call puts into the cell (C10).
+#[derive(Clone, Copy, Debug, PartialEq, Eq, Serialize, Deserialize)]
+pub enum CellContent {
+    /// value "v<tag>" (+ optional fill style)
+    Value,
+    /// nothing at all (a bare cell, like `get_cell_mut` leaves behind)
+    Blank,
+    /// only a hyperlink: no value, no visible style
+    HyperlinkOnly,
+    /// only a bold font: a style, but nothing visible in an empty cell
+    FontOnly,
+    /// only a formula ("1+1", no references), no cached value
+    FormulaOnly,
+}
+
+/// Column letters in the requested case.
+pub fn col_letters(col: u32, letter_case: u8) -> String {
+    let up = col_name(col);
+    match letter_case {
+        1 => up.to_lowercase(),
+        2 => up
+            .chars()
+            .enumerate()
+            .map(|(i, ch)| if i % 2 == 0 { ch.to_ascii_lowercase() } else { ch })
+            .collect(),
+        _ => up,
+    }
+}
+
+pub const OTHER_SHEET_NAME: &str = "Elsewhere";
+
 #[derive(Clone, Debug, PartialEq, Serialize, Deserialize)]
 pub enum COp {
-    Insert { sheet: usize, axis: Axis, book_level: bool, by_letter: bool, p: u32, n: u32 },
-    Remove { sheet: usize, axis: Axis, book_level: bool, by_letter: bool, p: u32, n: u32 },
+    Insert { sheet: usize, axis: Axis, book_level: bool, by_letter: bool, p: u32, n: u32, call: CallForm },
+    Remove { sheet: usize, axis: Axis, book_level: bool, by_letter: bool, p: u32, n: u32, call: CallForm },
     Move { sheet: usize, rect: Rect, dr: i32, dc: i32 },
     Copy { sheet: usize, rect: Rect, dr: i32, dc: i32 },
     SetValue { sheet: usize, row: u32, col: u32, tag: u32 },
     RemoveCell { sheet: usize, row: u32, col: u32 },
     GetCellMut { sheet: usize, row: u32, col: u32 },
-    SetCell { sheet: usize, row: u32, col: u32, tag: u32, style: u32 },
+    SetCell { sheet: usize, row: u32, col: u32, tag: u32, style: u32, content: CellContent },
     SetStyle { sheet: usize, row: u32, col: u32, style: u32 },
     StyleRange { sheet: usize, rect: Rect, style: u32 },
     StyleRows { sheet: usize, r1: u32, r2: u32, style: u32 },
@@ -613,6 +676,20 @@ pub struct ResolveCtx<'a> {
     pub steered: u32,
     /// bound for rows/cols in the C10 bulk operations
     pub bulk_limit: u32,
+    /// C10: a quarter of the sheet-level inserts/removes go through `*_from_other_sheet`
+    pub from_other_variants: bool,
+}
+
+fn call_form(op: &AOp, cx: &ResolveCtx, axis: Axis) -> (bool, CallForm) {
+    let from_other = cx.from_other_variants && op.c % 4 == 1;
+    let by_letter = op.by_letter && axis == Axis::Col;
+    (
+        op.book_level && !from_other,
+        CallForm {
+            letter_case: if by_letter { (op.d % 3) as u8 } else { 0 },
+            from_other,
+        },
+    )
 }
 
 fn clip(x: i64, lo: i64, hi: i64) -> i64 {
@@ -667,13 +744,15 @@ pub fn resolve(op: &AOp, cx: &mut ResolveCtx) -> Resolved {
             ns.sort();
             ns.dedup();
             let n = ns[pick_idx(op.b, ns.len())];
+            let (book_level, call) = call_form(op, cx, axis);
             Resolved::Op(COp::Insert {
                 sheet,
                 axis,
-                book_level: op.book_level,
+                book_level,
                 by_letter: op.by_letter && axis == Axis::Col,
                 p,
                 n,
+                call,
             })
         }
         AKind::RemoveRows | AKind::RemoveCols => {
@@ -704,13 +783,15 @@ pub fn resolve(op: &AOp, cx: &mut ResolveCtx) -> Resolved {
                     None => return Resolved::Skip("remove-only-partial-bands-here"),
                 }
             }
+            let (book_level, call) = call_form(op, cx, axis);
             Resolved::Op(COp::Remove {
                 sheet,
                 axis,
-                book_level: op.book_level,
+                book_level,
                 by_letter: op.by_letter && axis == Axis::Col,
                 p,
                 n,
+                call,
             })
         }
         AKind::Move | AKind::Copy => {
@@ -766,13 +847,30 @@ pub fn resolve(op: &AOp, cx: &mut ResolveCtx) -> Resolved {
             Resolved::Op(COp::GetCellMut { sheet, row, col })
         }
         AKind::SetCell => {
-            let (row, col) = pick_pos(op, occ, 16000, 40000);
+            let content = match op.d % 8 {
+                0 => CellContent::Blank,
+                1 | 2 => CellContent::HyperlinkOnly,
+                3 => CellContent::FontOnly,
+                4 => CellContent::FormulaOnly,
+                _ => CellContent::Value,
+            };
+            let (row, col) = if op.a >= 48000 {
+                // a trailing position: below everything the sheet holds (what `cleanup`
+                // looks at first), in the column of an existing cell
+                let below = occ.max_used_from(Axis::Row, 1);
+                let row = (below as u64 + 1 + (op.a % 3) as u64).min(MAX_ROW as u64) as u32;
+                let col = pick_cell(occ, op.b).map(|p| p.1).unwrap_or_else(|| col_of(op.c));
+                (row, col)
+            } else {
+                pick_pos(op, occ, 16000, 40000)
+            };
             Resolved::Op(COp::SetCell {
                 sheet,
                 row,
                 col,
-                tag: if op.d % 5 == 0 { 0 } else { cx.tags.fresh() },
-                style: (op.e % 4) as u32,
+                tag: cx.tags.fresh(),
+                style: if content == CellContent::Value { (op.e % 4) as u32 } else { 0 },
+                content,
             })
         }
         AKind::SetStyle => {
@@ -855,25 +953,45 @@ pub fn resolve(op: &AOp, cx: &mut ResolveCtx) -> Resolved {
 
 pub fn apply_lib(book: &mut Spreadsheet, op: &COp) {
     match op {
-        COp::Insert { sheet, axis, book_level, by_letter, p, n } => {
-            let name = book.get_sheet(sheet).unwrap().get_name().to_string();
+        COp::Insert { sheet, axis, book_level, by_letter, p, n, call } => {
+            let name = book.get_sheet_collection_no_check()[*sheet].get_name().to_string();
+            let letters = col_letters(*p, call.letter_case);
+            if call.from_other {
+                let ws = book.get_sheet_mut(sheet).unwrap();
+                match (axis, by_letter) {
+                    (Axis::Row, _) => ws.insert_new_row_from_other_sheet(OTHER_SHEET_NAME, p, n),
+                    (Axis::Col, true) => ws.insert_new_column_from_other_sheet(OTHER_SHEET_NAME, &letters, n),
+                    (Axis::Col, false) => ws.insert_new_column_by_index_from_other_sheet(OTHER_SHEET_NAME, p, n),
+                }
+                return;
+            }
             match (axis, book_level, by_letter) {
                 (Axis::Row, true, _) => book.insert_new_row(&name, p, n),
                 (Axis::Row, false, _) => book.get_sheet_mut(sheet).unwrap().insert_new_row(p, n),
-                (Axis::Col, true, true) => book.insert_new_column(&name, &col_name(*p), n),
+                (Axis::Col, true, true) => book.insert_new_column(&name, &letters, n),
                 (Axis::Col, true, false) => book.insert_new_column_by_index(&name, p, n),
-                (Axis::Col, false, true) => book.get_sheet_mut(sheet).unwrap().insert_new_column(&col_name(*p), n),
+                (Axis::Col, false, true) => book.get_sheet_mut(sheet).unwrap().insert_new_column(&letters, n),
                 (Axis::Col, false, false) => book.get_sheet_mut(sheet).unwrap().insert_new_column_by_index(p, n),
             }
         }
-        COp::Remove { sheet, axis, book_level, by_letter, p, n } => {
-            let name = book.get_sheet(sheet).unwrap().get_name().to_string();
+        COp::Remove { sheet, axis, book_level, by_letter, p, n, call } => {
+            let name = book.get_sheet_collection_no_check()[*sheet].get_name().to_string();
+            let letters = col_letters(*p, call.letter_case);
+            if call.from_other {
+                let ws = book.get_sheet_mut(sheet).unwrap();
+                match (axis, by_letter) {
+                    (Axis::Row, _) => ws.remove_row_from_other_sheet(OTHER_SHEET_NAME, p, n),
+                    (Axis::Col, true) => ws.remove_column_from_other_sheet(OTHER_SHEET_NAME, &letters, n),
+                    (Axis::Col, false) => ws.remove_column_by_index_from_other_sheet(OTHER_SHEET_NAME, p, n),
+                }
+                return;
+            }
             match (axis, book_level, by_letter) {
                 (Axis::Row, true, _) => book.remove_row(&name, p, n),
                 (Axis::Row, false, _) => book.get_sheet_mut(sheet).unwrap().remove_row(p, n),
-                (Axis::Col, true, true) => book.remove_column(&name, &col_name(*p), n),
+                (Axis::Col, true, true) => book.remove_column(&name, &letters, n),
                 (Axis::Col, true, false) => book.remove_column_by_index(&name, p, n),
-                (Axis::Col, false, true) => book.get_sheet_mut(sheet).unwrap().remove_column(&col_name(*p), n),
+                (Axis::Col, false, true) => book.get_sheet_mut(sheet).unwrap().remove_column(&letters, n),
                 (Axis::Col, false, false) => book.get_sheet_mut(sheet).unwrap().remove_column_by_index(p, n),
             }
         }
@@ -892,11 +1010,23 @@ pub fn apply_lib(book: &mut Spreadsheet, op: &COp) {
         COp::GetCellMut { sheet, row, col } => {
             let _ = book.get_sheet_mut(sheet).unwrap().get_cell_mut((*col, *row));
         }
-        COp::SetCell { sheet, row, col, tag, style } => {
+        COp::SetCell { sheet, row, col, tag, style, content } => {
             let mut cell = Cell::default();
             cell.get_coordinate_mut().set_col_num(*col).set_row_num(*row);
-            if *tag > 0 {
-                cell.set_value(value_text(*tag));
+            match content {
+                CellContent::Value => {
+                    cell.set_value(value_text(*tag));
+                }
+                CellContent::Blank => {}
+                CellContent::HyperlinkOnly => {
+                    cell.get_hyperlink_mut().set_url(hl_url(*tag));
+                }
+                CellContent::FontOnly => {
+                    cell.get_style_mut().get_font_mut().set_bold(true);
+                }
+                CellContent::FormulaOnly => {
+                    cell.set_formula("1+1");
+                }
             }
             if *style > 0 {
                 cell.set_style(make_style(*style));
